@@ -12,12 +12,12 @@
     literal := nil | true | false | integer | decimal | "..." | KEYS[i] | ARGV[i] | r[i]
              | (0/0) | (1/0) | (-1/0) | { literal, ... }
 
-    Modelled: the marshalling of the arguments of redis.call (execute_unified_redis_command),
-    the blocked-command list, dispatch into Model/Exec.v, resp_frame_to_lua_value and
-    lua_value_to_resp, call aborts / pcall answers nil, KEYS and ARGV through
-    from_utf8_lossy, the EVAL handler's argument checks, and - for the sandbox probes
-    [return <global> == nil] - the set of globals of an mlua Lua 5.1 state after
-    create_lua_context. *)
+    Modelled (after the repairs 38e52a4 2ecc978 754e125 31c22b9 a6ba253): the marshalling of the
+    arguments of redis.call (execute_unified_redis_command: strings as bytes, numbers printed), the
+    blocked-command list, lazy expiry and dispatch into Model/Exec.v, resp_frame_to_lua_value and
+    lua_value_to_resp, call aborts with the command's own error / pcall answers the table {err = m},
+    KEYS and ARGV as bytes, the EVAL handler's argument checks, and - for the sandbox probes
+    [return <global> == nil] - the set of globals of an mlua Lua 5.1 state after create_lua_context. *)
 From Ferrous Require Import Base.Bytes Generated Model.Resp Model.Types Model.Utf8 Model.Strings Model.Lists Model.Exec.
 Open Scope Z_scope.
 
@@ -32,7 +32,9 @@ Inductive lval :=
 | LNaN
 | LInf (neg : bool)
 | LStr (b : bytes)
-| LTable (l : list lval).               (* positions 1..n; LNil = absent *)
+| LTable (l : list lval)                (* positions 1..n; LNil = absent; no field err *)
+| LErr (m : bytes).                     (* the table {err = m} redis.pcall returns for a failing command *)
+Inductive conv_l := LOk (vs : list lval) | LFail (m : bytes).
 
 (** nearest double of an integer (ties to even) *)
 Definition two53 := 9007199254740992.
@@ -297,26 +299,26 @@ Fixpoint eval (en : env) (e : lexp) : lval :=
   | ENaN => LNaN
   | EInf n => LInf n
   | EStr b => LStr b
-  (* setup_keys_and_args: String::from_utf8_lossy of every key / argument *)
-  | EKeys i => match nth1 i (e_keys en) with Some k => LStr (utf8_lossy k) | None => LNil end
-  | EArgv i => match nth1 i (e_argv en) with Some a => LStr (utf8_lossy a) | None => LNil end
+  (* setup_keys_and_args: lua.create_string(key): the bytes as received (a6ba253) *)
+  | EKeys i => match nth1 i (e_keys en) with Some k => LStr k | None => LNil end
+  | EArgv i => match nth1 i (e_argv en) with Some a => LStr a | None => LNil end
   | ERes i => match nth1 i (e_res en) with Some v => v | None => LNil end
   | ETable l => LTable (map (eval en) l)
   end.
 
 Definition num_text (neg : bool) (ip fp : bytes) : bytes := (if neg then [45] else []) ++ ip ++ [46] ++ fp.
 
-(** execute_unified_redis_command, argument loop: None = "Invalid UTF-8 in command argument"
-    or "Invalid argument type" *)
+(** execute_unified_redis_command, argument loop: strings are taken as bytes (binary safe,
+    a6ba253); None = "Invalid argument type" *)
 Definition marshal_arg (v : lval) : option bytes :=
   match v with
-  | LStr s => if utf8_valid s then Some s else None           (* s.to_str() *)
+  | LStr s => Some s                                          (* s.as_bytes() *)
   | LInt i => Some (print_int i)                              (* i.to_string() *)
   | LNum n ip fp => Some (num_text n ip fp)                   (* n.to_string() *)
   | LBig z => None                                            (* Display of a large double: shortest digits, not modelled; excluded by arg_ok *)
   | LNaN => Some (bs "NaN")
   | LInf n => Some (if n then bs "-inf" else bs "inf")
-  | LNil | LBool _ | LTable _ => None
+  | LNil | LBool _ | LTable _ | LErr _ => None
   end.
 Fixpoint marshal_args (l : list lval) : option (list bytes) :=
   match l with
@@ -327,36 +329,45 @@ Fixpoint marshal_args (l : list lval) : option (list bytes) :=
               end
   end.
 
-(** resp_frame_to_lua_value; CErr = handle_command_error_with_context in call mode
-    (Err(RuntimeError("REDIS_CALL_ABORT:..."))); in pcall mode an error is nil *)
-Inductive conv := CVal (v : lval) | CErr.
+(** has_error_code: the message starts with an upper-case word of at least two letters;
+    handle_command_error_with_context keeps such a message and prefixes "ERR " otherwise (38e52a4) *)
+Fixpoint fword (b : bytes) : bytes :=
+  match b with [] => [] | c :: r => if c =? 32 then [] else c :: fword r end.
+Definition is_upper_az (c : Z) : bool := (65 <=? c) && (c <=? 90).
+Definition has_error_code (b : bytes) : bool := (1 <? len (fword b)) && forallb is_upper_az (fword b).
+Definition fmt_err (b : bytes) : bytes := if has_error_code b then b else bs "ERR " ++ b.
+(** the errors raised by the script layer itself ("Invalid argument type", "No command
+    specified", a refused command): plain text, so "ERR ..." *)
+Definition layer_err : bytes := bs "ERR".
+
+(** resp_frame_to_lua_value.  An error reply: under redis.call, CErr m =
+    Err(RuntimeError("REDIS_CALL_ABORT:" ++ m)), which ends the script with m; under redis.pcall
+    the value is the table {err = m} (2ecc978).  Status replies still go through
+    from_utf8_lossy; bulk replies are bytes (a6ba253). *)
+Inductive conv := CVal (v : lval) | CErr (m : bytes).
 Fixpoint resp_to_lua (pcall : bool) (f : frame) : conv :=
-  let conv_list := fix conv_list (l : list frame) : option (list lval) :=
+  let conv_list := fix conv_list (l : list frame) : conv_l :=
     match l with
-    | [] => Some []
+    | [] => LOk []
     | x :: r => match resp_to_lua pcall x with
-                | CVal v => match conv_list r with Some t => Some (v :: t) | None => None end
-                | CErr => None
+                | CVal v => match conv_list r with LOk t => LOk (v :: t) | LFail m => LFail m end
+                | CErr m => LFail m
                 end
     end in
   match f with
   | FSimple b => CVal (LStr (utf8_lossy b))
-  | FBulk b => CVal (LStr (utf8_lossy b))
+  | FBulk b => CVal (LStr b)
   | FNullBulk => CVal LNil
   | FInt i => CVal (lua_int i)
-  | FError _ => if pcall then CVal LNil else CErr
-  | FArray l => match conv_list l with Some vs => CVal (LTable vs) | None => CErr end
+  | FError b => let m := fmt_err (utf8_lossy b) in if pcall then CVal (LErr m) else CErr m
+  | FArray l => match conv_list l with LOk vs => CVal (LTable vs) | LFail m => CErr m end
   | FNullArray => CVal LNil
   | _ => CVal LNil
   end.
 
 (** lua_value_to_resp *)
-Fixpoint until_nil (l : list lval) : list lval :=
-  match l with
-  | [] => []
-  | LNil :: _ => []
-  | v :: r => v :: until_nil r
-  end.
+Definition trunc_num (neg : bool) (ip : bytes) : Z :=
+  match parse_digits ip with Some n => if neg then - n else n | None => 0 end.
 Fixpoint lua_to_resp (v : lval) : frame :=
   (* "for i in 1.. { match table.get(i) { Nil => break, value => items.push(..) } }" *)
   let items := fix items (l : list lval) : list frame :=
@@ -371,11 +382,14 @@ Fixpoint lua_to_resp (v : lval) : frame :=
   | LInt i => FInt i
   | LNaN => FNullBulk
   | LInf n => FBulk (if n then bs "-inf" else bs "inf")
-  (* n.fract() == 0.0 && n >= i64::MIN as f64 && n <= i64::MAX as f64 (= 2^63): n as i64 saturates *)
-  | LBig z => if z =? two63 then FInt i64_max else FBulk (print_int z)
-  | LNum n ip fp => FBulk (num_text n ip fp)
+  (* a finite number is an integer reply, n as i64: the fraction is dropped, the cast saturates (31c22b9) *)
+  | LBig z => FInt (if 0 <? z then i64_max else i64_min)
+  | LNum n ip fp => FInt (trunc_num n ip)
   | LStr s => FBulk s
-  | LTable l => match items l with [] => FNullBulk | its => FArray its end
+  (* a table with a string field err is an error reply (2ecc978) *)
+  | LErr m => FError m
+  (* an empty table is an empty array (754e125) *)
+  | LTable l => FArray (items l)
   end.
 Fixpoint table_items (l : list lval) : list frame :=
   match l with
@@ -389,20 +403,22 @@ Definition blocked (name : bytes) : bool := bmem name lua_blocked.
 
 (** one redis.call / redis.pcall with already evaluated arguments *)
 Definition call_cmd (now : Z) (d : db) (pcall : bool) (vals : list lval) : conv * db :=
-  let fail := (if pcall then CVal LNil else CErr, d) in
+  let fail := (if pcall then CVal (LErr layer_err) else CErr layer_err, d) in
   match marshal_args vals with
   | None => fail
   | Some [] => fail                                           (* "No command specified" *)
   | Some (nm :: rest) =>
-      if blocked (upper nm) then fail else
-      (* lazy expiry before the executor runs the command, as for a command sent directly *)
+      if blocked (upper (utf8_lossy nm)) then fail else
+      (* LuaCommandAdapter::execute_lua_command: lazy expiry before the executor runs the command,
+         as for a command sent directly; the command name is upper-cased for it *)
       let d := fst (expire_before now d (upper nm) (map FBulk (nm :: rest))) in
       match exec_run now d (map FBulk (nm :: rest)) None with
       | (r, d') => (resp_to_lua pcall r, d')
       end
   end.
 
-(** table.sort on a table of strings; None = a Lua error *)
+(** table.sort on a table of strings; None = a Lua error.  An error table {err = m} has an
+    empty array part: sorting it does nothing *)
 Fixpoint all_strs (l : list lval) : option (list bytes) :=
   match l with
   | [] => Some []
@@ -416,32 +432,34 @@ Fixpoint set_nth1 (i : nat) (v : lval) (l : list lval) : list lval :=
   | _, [] => []
   end.
 
-(** the statements in order; None = the script was aborted (effects so far stay) *)
+(** the statements in order; BAbort m = the script was ended with the error m (effects so far stay) *)
+Inductive bres := BOk (res : list lval) | BAbort (m : bytes).
 Fixpoint run_body (now : Z) (d : db) (keys argv : list bytes) (res : list lval) (body : list stmt)
-  : option (list lval) * db :=
+  : bres * db :=
   match body with
-  | [] => (Some res, d)
+  | [] => (BOk res, d)
   | SCall pc args :: rest =>
       let en := {| e_keys := keys; e_argv := argv; e_res := res |} in
       match call_cmd now d pc (map (eval en) args) with
       | (CVal v, d') => run_body now d' keys argv (res ++ [v]) rest
-      | (CErr, d') => (None, d')
+      | (CErr m, d') => (BAbort m, d')
       end
   | SSort i :: rest =>
       match nth1 i res with
       | Some (LTable l) =>
           match all_strs l with
           | Some ss => run_body now d keys argv (set_nth1 (Z.to_nat (i - 1)) (LTable (map LStr (bsort ss))) res) rest
-          | None => (None, d)
+          | None => (BAbort layer_err, d)
           end
-      | _ => (None, d)
+      | Some (LErr _) => run_body now d keys argv res rest
+      | _ => (BAbort layer_err, d)                            (* "ERR Error running script: ..." *)
       end
   end.
 
 Definition run_script (now : Z) (d : db) (keys argv : list bytes) (s : script) : frame * db :=
   match run_body now d keys argv [] (s_body s) with
-  | (None, d') => (r_err, d')
-  | (Some res, d') =>
+  | (BAbort m, d') => (FError m, d')
+  | (BOk res, d') =>
       let en := {| e_keys := keys; e_argv := argv; e_res := res |} in
       (lua_to_resp (match s_ret s with RAll => LTable res | RVal e => eval en e end), d')
   end.
